@@ -6,7 +6,7 @@ export GOFLAGS=-mod=mod GOPROXY=off GOSUMDB=off GOTOOLCHAIN=local; unset GOWORK
 sd=$1; shift
 ids="$@"; [ -z "$ids" ] && ids=$(/verif/bin/gokrb5lint list)
 d=$(mktemp -d ${TMPDIR:-/tmp}/tryneutralXXXX)
-rsync -a --exclude .git /repo/v8/ $d/
+rsync -a --exclude .git ${SRC:-/repo/v8}/ $d/
 ( cd $d && patch -p2 -s --no-backup-if-mismatch < $sd/patch.diff ) || { echo "RESULT apply-failed"; rm -rf $d; exit 2; }
 ( cd $d && go build ./... ) || { echo "RESULT nocompile"; rm -rf $d; exit 2; }
 if [ -z "$NOSUITE" ]; then
